@@ -145,6 +145,21 @@ func directedOracle() []hist {
 		h.add(claimLine(2, 1, 9, snd0, 4, "1", "eth", tok0, 2)) // late on failed
 		hs = append(hs, h)
 	}
+	// spellings: the same validator claims twice, the second time under the all-upper-case bech32 spelling of its
+	// operator address; powers 40/30/30, so that a validator counted twice would reach 70 % alone
+	for _, order := range [][]string{{"0", "0U"}, {"0U", "0"}, {"0U", "0U"}} {
+		var h hist
+		stdSetup(&h, []int64{40, 30, 30}, nil, "0,1,2")
+		for _, v := range order {
+			h.add("tx claim %s 1 11 %s 4 9 eth %s 2", v, snd0, tok0)
+		}
+		h.add("tx claim 0U 1 11 %s 4U 8 eth %s 2", snd0, tok0) // another content, other spelling
+		h.add("tx claim 1U 1 11 %s 4 9 eth %s 2", snd0, tok0)
+		h.add("tx claim 1 1 11 %s 4U 9 eth %s 2", snd0, tok0)
+		h.add("tx wl 3U remove 2U")
+		h.add("tx claim 2 1 11 %s 4 9 eth %s 2", snd0, tok0)
+		hs = append(hs, h)
+	}
 	// zero total power, zero-power claimant, whitelist with duplicates
 	{
 		var h hist
@@ -371,7 +386,7 @@ func randomHistory(rng *Rng, profile string) hist {
 			if strings.ToLower(sym) == "eth" && !rng.Chance(1, 12) {
 				tok = ethSpelling(rng, ethBases[2])
 			}
-			e.contents = append(e.contents, fmt.Sprintf("%d %s %s %s %d", recv, amount, sym, tok, typ))
+			e.contents = append(e.contents, fmt.Sprintf("%s %s %s %s %d", sp(rng, recv, 12), amount, sym, tok, typ))
 		}
 	}
 	nops := 10 + rng.Intn(30)
@@ -399,14 +414,14 @@ func randomHistory(rng *Rng, profile string) hist {
 			if rng.Chance(1, 20) {
 				snd = ethSpelling(rng, ethBases[1]) // another spelling: another prophecy id
 			}
-			h.add("tx claim %d %d %d %s %s", v, e.chain, e.nonce, snd, c)
+			h.add("tx claim %s %d %d %s %s", sp(rng, v, 10), e.chain, e.nonce, snd, c)
 		case r < pClaim+pWl:
 			signer := 3
 			if rng.Chance(1, 8) {
 				signer = 4
 			}
 			op := []string{"add", "add", "add", "remove", "remove", "remove", "remove", "flip"}[rng.Intn(8)]
-			h.add("tx wl %d %s %d", signer, op, rng.Intn(nv))
+			h.add("tx wl %s %s %s", sp(rng, signer, 12), op, sp(rng, rng.Intn(nv), 12))
 		case r < pClaim+pWl+pVal:
 			i := rng.Intn(nv)
 			p := powers[i]
@@ -421,11 +436,20 @@ func randomHistory(rng *Rng, profile string) hist {
 	return h
 }
 
-func randomPegOp(rng *Rng, h *hist) {
-	signer := 3
-	if rng.Chance(1, 8) {
-		signer = 4 + rng.Intn(3)
+// sp spells an address field: the alias, with probability 1/den followed by "U" (all-upper-case bech32)
+func sp(rng *Rng, alias int, den int) string {
+	if rng.Chance(1, den) {
+		return fmt.Sprintf("%dU", alias)
 	}
+	return fmt.Sprint(alias)
+}
+
+func randomPegOp(rng *Rng, h *hist) {
+	signerN := 3
+	if rng.Chance(1, 8) {
+		signerN = 4 + rng.Intn(3)
+	}
+	signer := sp(rng, signerN, 12)
 	recv := ethSpelling(rng, ethBases[rng.Intn(len(ethBases))])
 	if rng.Chance(1, 30) {
 		recv = "0x123" // not an address
@@ -449,9 +473,9 @@ func randomPegOp(rng *Rng, h *hist) {
 		case 2:
 			ceth = "0"
 		}
-		h.add("tx %s %d %d %s %s %s %s", kind, 3+rng.Intn(4), []int64{1, 1, 1, 1, 1, 0, -3}[rng.Intn(7)], recv, amount, syms[rng.Intn(len(syms))], ceth)
+		h.add("tx %s %s %d %s %s %s %s", kind, sp(rng, 3+rng.Intn(4), 12), []int64{1, 1, 1, 1, 1, 0, -3}[rng.Intn(7)], recv, amount, syms[rng.Intn(len(syms))], ceth)
 	case r < 78:
-		h.add("tx pause %d %s", signer, b2s(rng.Chance(1, 3)))
+		h.add("tx pause %s %s", signer, b2s(rng.Chance(1, 3)))
 	case r < 88:
 		n := rng.Intn(3)
 		var l []string
@@ -465,11 +489,11 @@ func randomPegOp(rng *Rng, h *hist) {
 		if len(l) > 0 {
 			s = strings.Join(l, ",")
 		}
-		h.add("tx bl %d %s", signer, s)
+		h.add("tx bl %s %s", signer, s)
 	case r < 94:
-		h.add("tx recv %d %d", signer, rng.Intn(bNAccts))
+		h.add("tx recv %s %s", signer, sp(rng, rng.Intn(bNAccts), 12))
 	default:
-		h.add("tx rescue %d %d %s", signer, rng.Intn(bNAccts), rng.Amount(60))
+		h.add("tx rescue %s %s %s", signer, sp(rng, rng.Intn(bNAccts), 12), rng.Amount(60))
 	}
 }
 
